@@ -166,7 +166,18 @@ pub fn run_worker(
         Some(k) => {
           hit.insert(k.what.clone());
         }
-        None => unlisted.push(v),
+        None => {
+          // very long details (answers over megabyte texts) are cut for reports
+          let mut v = v;
+          if v.detail.len() > 4000 {
+            let mut cut = 4000;
+            while !v.detail.is_char_boundary(cut) {
+              cut -= 1;
+            }
+            v.detail = format!("{}... ({} bytes in all)", &v.detail[..cut], v.detail.len());
+          }
+          unlisted.push(v)
+        }
       }
     }
     for what in hit {
@@ -418,10 +429,17 @@ pub fn run_property(p: &dyn Property, cfg: &RunCfg) -> i32 {
       .iter()
       .find(|x| x.kind == v.kind && x.op_class == v.op_class)
       .or_else(|| rep.violations.iter().find(|x| x.kind == v.kind));
-    let (final_case, final_v, final_lh) = match found {
+    let (final_case, mut final_v, final_lh) = match found {
       Some(fv) => (rep.case.clone(), fv.clone(), rep.log_hash),
       None => (case.clone(), v.clone(), *lh),
     };
+    if final_v.detail.len() > 4000 {
+      let mut cut = 4000;
+      while !final_v.detail.is_char_boundary(cut) {
+        cut -= 1;
+      }
+      final_v.detail = format!("{}... ({} bytes in all)", &final_v.detail[..cut], final_v.detail.len());
+    }
     let dir = format!("{}/replays", cfg.verif_dir);
     let _ = std::fs::create_dir_all(&dir);
     let path = format!("{}/{}-{}-{}-{}.json", dir, p.id(), cfg.seed, i, v.kind);
